@@ -13,6 +13,7 @@ import (
 	"os"
 	"strings"
 	"sync"
+	"time"
 
 	"github.com/q191201771/lal/pkg/base"
 	"github.com/q191201771/lal/pkg/hls"
@@ -20,6 +21,7 @@ import (
 	"github.com/q191201771/lal/pkg/httpts"
 	"github.com/q191201771/lal/pkg/logic"
 	"github.com/q191201771/lal/pkg/rtmp"
+	"github.com/q191201771/lal/pkg/rtsp"
 
 	"verif/lib/fsim"
 	"verif/lib/netsim"
@@ -160,10 +162,13 @@ var buildMu sync.Mutex
 // New builds a fresh server. Write queues of every subscriber kind are forced to 0 (synchronous
 // writes) unless QueueSizes was called; that is process-wide state.
 func New(c Conf) *W {
+	// NewServerManager re-initialises naza's global logger with this world's (always identical)
+	// log configuration; concurrent constructions write the same values
 	buildMu.Lock()
-	defer buildMu.Unlock()
 	worldSeq++
-	w := &W{Net: netsim.NewWorld(), Notify: &Notify{}, ID: worldSeq}
+	id := worldSeq
+	buildMu.Unlock()
+	w := &W{Net: netsim.NewWorld(), Notify: &Notify{}, ID: id}
 	withHook := false
 	if v, ok := c["_hook"]; ok {
 		withHook, _ = v.(bool)
@@ -195,9 +200,11 @@ func New(c Conf) *W {
 
 // SyncQueues makes every subscriber write synchronous (queue size 0). Process-wide.
 func SyncQueues() {
+	hls.VerifTickerPeriod = 1000000 * time.Hour
 	rtmp.VerifSetWChanSize(0)
 	httpflv.SubSessionWriteChanSize = 0
 	httpts.SubSessionWriteChanSize = 0
+	rtsp.VerifSetWriteChanSize(0)
 }
 
 // Settle waits for quiescence and drains the notify worker.
